@@ -442,6 +442,11 @@ impl RefCountTable {
 		}
 		Ok(())
 	}
+
+	#[cfg(pdb_verif)]
+	pub(crate) fn verif_has_file(&self) -> bool {
+		self.map.read().is_some()
+	}
 }
 
 #[cfg(test)]
